@@ -200,6 +200,16 @@ func cmdWorker(args []string) int {
 			}
 			hung := cpuTime()-lastCPU > limit
 			oom := ms.HeapAlloc > heapLimit
+			if oom && p.HangIsViolation {
+				// What counts is what the read holds on to, not garbage the
+				// collector has not got to yet: on a heavily oversubscribed machine
+				// the concurrent collector's workers are descheduled for seconds and
+				// the heap overshoots its goal by far although little of it is
+				// live. Collect, then look again.
+				runtime.GC()
+				runtime.ReadMemStats(&ms)
+				oom = ms.HeapAlloc > heapLimit
+			}
 			if !hung && !oom && time.Since(lastChange) > stallAfter {
 				mu.Lock()
 				res.Trouble = fmt.Sprintf("watchdog: no progress for %v of wall time in case %d (machine stalled?)", stallAfter, curCase)
@@ -924,6 +934,11 @@ func cmdReplay(args []string) int {
 			}
 			runtime.ReadMemStats(&ms)
 			hung, oom := cpuTime()-lastCPU > hangAfter, ms.HeapAlloc > heapLimit
+			if oom && p.HangIsViolation {
+				runtime.GC() // live data only, as in the worker's watchdog
+				runtime.ReadMemStats(&ms)
+				oom = ms.HeapAlloc > heapLimit
+			}
 			if hung || oom {
 				kind := "hang"
 				if oom {
